@@ -46,7 +46,7 @@ type exhRunner[C any] struct {
 	names    []string
 	check    func(C) (info, string)
 	tl       []*vk.Tally
-	cls      [][32]int64
+	cls      [][64]int64
 	slots    []slot
 	oldGC    int
 	oldLimit int64
@@ -59,7 +59,7 @@ type exhRunner[C any] struct {
 
 func newExh[C any](h *vk.H, t *testing.T, names []string, check func(C) (info, string)) *exhRunner[C] {
 	w := runtime.GOMAXPROCS(0)
-	e := &exhRunner[C]{h: h, t: t, names: names, check: check, cls: make([][32]int64, w)}
+	e := &exhRunner[C]{h: h, t: t, names: names, check: check, cls: make([][64]int64, w)}
 	// The live heap is tiny and every case allocates a little, so with the
 	// default setting the collector runs thousands of times per second and
 	// its pauses serialise the workers.  Collect by a soft memory limit
@@ -267,7 +267,11 @@ func genRuns(t *rapid.T, label string, k, n, maxRun int) []int {
 
 // genBase draws a base sequence: uniform, runs of equals, or periodic.
 func genBase(t *rapid.T, label string, k, maxLen int) []int {
-	n := genLen(t, label, maxLen)
+	return genBaseN(t, label, k, genLen(t, label, maxLen))
+}
+
+// genBaseN is genBase with the length given.
+func genBaseN(t *rapid.T, label string, k, n int) []int {
 	switch rapid.IntRange(0, 2).Draw(t, label+"_shape") {
 	case 0:
 		return rapid.SliceOfN(rapid.IntRange(0, k-1), n, n).Draw(t, label+"_uniform")
@@ -379,6 +383,61 @@ func genPair(t *rapid.T, k, maxLen int) (a, b []int) {
 	// by construction: most pairs get crossings (the ambiguous alignments)
 	for x := rapid.SampledFrom([]int{1, 2, 0, 3}).Draw(t, "crossings"); x > 0; x-- {
 		b = cross(b, rapid.IntRange(0, 255).Draw(t, "crossPos"), rapid.IntRange(1, 4).Draw(t, "crossLen"))
+	}
+	return a, b
+}
+
+// genRoundSizes draws two lengths that sit at (or next to) the round numbers
+// fixed-size buffers and size thresholds are made of: both lengths at R, the
+// sum at R, or the product at R.
+func genRoundSizes(t *rapid.T) (la, lb int) {
+	R := rapid.SampledFrom([]int{100, 64, 128, 200, 256, 512, 1000, 1024}).Draw(t, "roundNumber")
+	off := func(label string) int { return rapid.SampledFrom([]int{0, 0, 0, 0, -1, 1}).Draw(t, label) }
+	switch rapid.IntRange(0, 3).Draw(t, "roundKind") {
+	case 0, 1: // both lengths (cost: the product; the large ones are rare)
+		if R > 256 && !vk.Rare(t, "roundBothLarge", 6) {
+			R = rapid.SampledFrom([]int{100, 64, 128, 200, 256}).Draw(t, "roundNumberSmall")
+		}
+		return R + off("offA"), R + off("offB")
+	case 2: // the sum
+		s := R + off("offSum")
+		la = rapid.SampledFrom([]int{s / 2, s / 2, s / 4, s - 1, rapid.IntRange(0, s).Draw(t, "sumSplit")}).Draw(t, "sumA")
+		return la, s - la
+	}
+	// the product
+	var divs []int
+	for d := 1; d <= R; d++ {
+		if R%d == 0 {
+			divs = append(divs, d)
+		}
+	}
+	la = rapid.SampledFrom(divs).Draw(t, "divisor")
+	return la, max(0, R/la+off("offProd"))
+}
+
+// fitLen cuts s to n elements or extends it with uniform elements.
+func fitLen(t *rapid.T, label string, s []int, k, n int) []int {
+	if len(s) >= n {
+		return s[:n]
+	}
+	return append(s, rapid.SliceOfN(rapid.IntRange(0, k-1), n-len(s), n-len(s)).Draw(t, label+"_ext")...)
+}
+
+// genRoundPair draws a pair with lengths from genRoundSizes: two versions of
+// one base, or independent sequences.
+func genRoundPair(t *rapid.T) (a, b []int) {
+	la, lb := genRoundSizes(t)
+	k := rapid.SampledFrom([]int{3, 2, 4, 8, 30}).Draw(t, "roundAlphabet")
+	if la*lb > 40000 {
+		k = min(k, 4) // (the reference that counts the optimal solutions is linear in k)
+	}
+	a = genBaseN(t, "ra", k, la)
+	if rapid.IntRange(0, 3).Draw(t, "roundIndep") == 0 {
+		return a, genBaseN(t, "rb", k, lb)
+	}
+	b = fitLen(t, "rb", mutate(t, "rb", a, k, 1<<20), k, lb)
+	if rapid.Bool().Draw(t, "roundMutA") {
+		a = fitLen(t, "ra", mutate(t, "ra2", a, k, 1<<20), k, la)
 	}
 	return a, b
 }
@@ -557,7 +616,51 @@ func exhPairElem(idx int, kinds []string, twin bool, a, b []int) (kind string, a
 // ---------------------------------------------------------------------------
 // C11.
 
+// genEditCase: a pair, sometimes followed by rounds of in-place updates and
+// / or by a second pair (mostly of the same element kind).
 func genEditCase(t *rapid.T) EditCase {
+	c := genEditOne(t)
+	if rapid.IntRange(0, 3).Draw(t, "withRounds") == 0 {
+		genEditRounds(t, &c)
+	}
+	if rapid.IntRange(0, 7).Draw(t, "withThen") == 0 {
+		th := genEditOne(t)
+		if rapid.IntRange(0, 3).Draw(t, "thenOtherKind") != 0 {
+			th.Elem = c.Elem // (identities drawn for another kind are harmless)
+			th.Share = th.Share && th.Elem == kindWords
+		}
+		c.Then = &th
+	}
+	return c
+}
+
+// genEditRounds adds one or two rounds: rhs := lhs and / or a few writes of
+// elements that occur somewhere in the inputs.
+func genEditRounds(t *rapid.T, c *EditCase) {
+	vals, ids := append(append([]int(nil), c.Lhs...), c.Rhs...), append(fullIDs(c.LID, len(c.Lhs)), fullIDs(c.RID, len(c.Rhs))...)
+	if c.Buf != nil {
+		vals, ids = c.Buf, fullIDs(c.BID, len(c.Buf))
+	}
+	writes := func(label string, n int) (ws [][3]int) {
+		for ; n > 0 && len(vals) > 0; n-- {
+			src := rapid.IntRange(0, len(vals)-1).Draw(t, label+"Src")
+			ws = append(ws, [3]int{rapid.IntRange(0, 1<<16).Draw(t, label+"Pos"), vals[src], ids[src]})
+		}
+		return ws
+	}
+	for r := rapid.SampledFrom([]int{1, 1, 1, 2}).Draw(t, "rounds"); r > 0; r-- {
+		rd := EditRound{Same: rapid.IntRange(0, 3).Draw(t, "roundSame") == 0}
+		nl, nr := rapid.IntRange(0, 2).Draw(t, "roundL"), rapid.IntRange(0, 2).Draw(t, "roundR")
+		if !rd.Same && nl+nr == 0 {
+			nl = 1
+		}
+		rd.L, rd.R = writes("roundL", nl), writes("roundR", nr)
+		c.Rounds = append(c.Rounds, rd)
+	}
+}
+
+// genEditOne draws one input pair and its element kind.
+func genEditOne(t *rapid.T) EditCase {
 	c := genEditInts(t)
 	c.Elem = genElem(t, kindsComparable)
 	if !hasTwins(c.Elem) {
@@ -579,6 +682,10 @@ func genEditInts(t *rapid.T) EditCase {
 		if rapid.Bool().Draw(t, "blockSwap") {
 			a, b = b, a
 		}
+		return EditCase{Lhs: a, Rhs: b}
+	}
+	if rapid.IntRange(0, 9).Draw(t, "roundShape") == 0 {
+		a, b := genRoundPair(t)
 		return EditCase{Lhs: a, Rhs: b}
 	}
 	k := rapid.IntRange(2, 4).Draw(t, "alphabet")
@@ -613,6 +720,26 @@ func genBigEdit(t *rapid.T) EditCase {
 		c.BigDel = append(c.BigDel, rapid.IntRange(0, 20).Draw(t, "earlyDel")) // a difference near the start
 	}
 	c.Elem = genElem(t, kindsComparable)
+	if rapid.IntRange(0, 2).Draw(t, "withRound") == 0 {
+		// one round of in-place writes: a value from the other end, or a new one
+		val := func(label string) int {
+			v := rapid.IntRange(-9, n-1).Draw(t, label)
+			if v >= 0 && c.BigMod > 0 {
+				v %= c.BigMod
+			}
+			return v
+		}
+		rd := EditRound{Same: rapid.IntRange(0, 3).Draw(t, "roundSame") == 0}
+		for w := rapid.IntRange(1, 3).Draw(t, "roundWrites"); w > 0; w-- {
+			wr := [3]int{rapid.IntRange(0, n).Draw(t, "roundPos"), val("roundVal"), 0}
+			if rapid.Bool().Draw(t, "roundSide") {
+				rd.L = append(rd.L, wr)
+			} else {
+				rd.R = append(rd.R, wr)
+			}
+		}
+		c.Rounds = []EditRound{rd}
+	}
 	return c
 }
 
@@ -717,10 +844,18 @@ func genLCSInts(t *rapid.T) LCSCase {
 		}
 		return LCSCase{As: a, Bs: b, Lay: rapid.SampledFrom([]int{0, 1, 2, 3}).Draw(t, "layout")}
 	}
-	k := rapid.IntRange(1, 5).Draw(t, "alphabet")
-	maxLen := rapid.SampledFrom([]int{12, 60, 200, 200}).Draw(t, "maxLen")
-	a, b := genPair(t, k, maxLen)
-	c := LCSCase{As: a, Bs: b, Lay: rapid.SampledFrom([]int{0, 0, 1, 2, 3, 4, 5}).Draw(t, "layout")}
+	var a, b []int
+	var c LCSCase
+	if rapid.IntRange(0, 5).Draw(t, "roundShape") == 0 {
+		// lengths at round numbers (the windows of Lay 4 / 5 would change them)
+		a, b = genRoundPair(t)
+		c = LCSCase{As: a, Bs: b, Lay: rapid.SampledFrom([]int{0, 0, 1, 2, 3}).Draw(t, "layout")}
+	} else {
+		k := rapid.IntRange(1, 5).Draw(t, "alphabet")
+		maxLen := rapid.SampledFrom([]int{12, 60, 200, 200}).Draw(t, "maxLen")
+		a, b = genPair(t, k, maxLen)
+		c = LCSCase{As: a, Bs: b, Lay: rapid.SampledFrom([]int{0, 0, 1, 2, 3, 4, 5}).Draw(t, "layout")}
+	}
 	if c.Lay >= 4 {
 		// one argument is a window of the other's memory; windows starting at
 		// the first element and windows ending at the last one are favoured
@@ -846,7 +981,40 @@ func genSeqInts(t *rapid.T) SeqCase {
 	}
 	maxLen := rapid.SampledFrom([]int{12, 50, 200, 200}).Draw(t, "maxLen")
 	n := genLen(t, "vs", maxLen)
-	switch rapid.IntRange(0, 6).Draw(t, "shape") {
+	switch rapid.IntRange(0, 7).Draw(t, "shape") {
+	case 7: // a non-decreasing run of exactly 2^k (sometimes +-1) elements - the optimum at that
+		// moment -, then an element strictly below everything so far, then a run that builds on
+		// the new minimum and (mostly) outgrows the first run, so that the answer goes through it
+		p := rapid.SampledFrom([]int{64, 32, 128, 64, 256}).Draw(t, "p2")
+		if vk.Rare(t, "p2Large", 30) {
+			p = rapid.SampledFrom([]int{512, 1024}).Draw(t, "p2L")
+		}
+		p += rapid.SampledFrom([]int{0, 0, 0, 0, -1, 1}).Draw(t, "p2Off")
+		v := 1000
+		for i := 0; i < p; i++ {
+			c.Vs = append(c.Vs, v)
+			v += rapid.SampledFrom([]int{1, 1, 0, 2}).Draw(t, "p2Inc")
+		}
+		lo := 1000 - rapid.IntRange(1, 40).Draw(t, "p2Below")
+		l2 := p + rapid.IntRange(0, 12).Draw(t, "p2More")
+		if rapid.IntRange(0, 3).Draw(t, "p2Short") == 0 {
+			l2 = rapid.IntRange(1, p).Draw(t, "p2Len")
+		}
+		step2 := rapid.SampledFrom([]int{1, 1, 0, 2, 9}).Draw(t, "p2Step")
+		for i := 0; i < l2; i++ {
+			c.Vs = append(c.Vs, lo+i*step2)
+		}
+		for i, more := 0, rapid.IntRange(0, 20).Draw(t, "p2Tail"); i < more; i++ { // and onwards
+			c.Vs = append(c.Vs, max(v, lo+l2*step2)+i)
+		}
+		for i, x := range c.Vs {
+			switch c.Cmp {
+			case "rev":
+				c.Vs[i] = 16000 - x // the same shape in the reversed order
+			case "half":
+				c.Vs[i] = 2 * x // distinct under v>>1 as well
+			}
+		}
 	case 6: // ascending runs at different scales: a coarse run, then denser runs that restart
 		// at (or next to) a value of an earlier run and overwrite the tails built so far
 		dir := 1
@@ -1059,7 +1227,42 @@ func TestC12LISExhaustive(t *testing.T) {
 // ---------------------------------------------------------------------------
 // C17.
 
+// genMegaRotate draws a Rotate of an int slice of a million elements and
+// more: alone (lengths around 2^20, 2^21, 2^22), or - package-level state
+// that packs or truncates its key - directly after a Rotate of a small slice
+// of m elements with gcd(k, m) > 1, the long slice having 2^21+m or 2^22+m
+// elements and being rotated by the same k or the one next to it.
+func genMegaRotate(t *rapid.T) UtilCase {
+	c := UtilCase{Fn: "Rotate", Mega: true, Spare: rapid.SampledFrom([]int{0, 0, 1, 3}).Draw(t, "megaSpare")}
+	if rapid.IntRange(0, 3).Draw(t, "megaAlone") == 0 {
+		c.N = rapid.SampledFrom([]int{1 << 20, 1<<20 + 1, 1<<21 + 6, 1<<20 - 1, 1 << 22}).Draw(t, "megaN")
+		n := c.N
+		c.K = rapid.SampledFrom([]int{
+			rapid.IntRange(1, 1000).Draw(t, "megaSmallK"), -rapid.IntRange(1, 1000).Draw(t, "megaSmallLeft"),
+			n / 2, n/2 + 1, n - 1, n, -n, n + 1, 1 << 19, rapid.IntRange(-n, n).Draw(t, "megaAnyK")}).Draw(t, "megaK")
+		return c
+	}
+	a := rapid.SampledFrom([]int{3, 5, 7, 9, 11, 15}).Draw(t, "megaA")
+	b := rapid.IntRange(2, 9).Draw(t, "megaB")
+	cc := min(rapid.SampledFrom([]int{1, 1, 3, 2, 5}).Draw(t, "megaC"), b-1)
+	m, k := a*b, a*cc
+	c.Before = &UtilCase{Fn: "Rotate", N: m, K: k}
+	c.N = rapid.SampledFrom([]int{1 << 21, 1 << 21, 1 << 21, 1 << 22}).Draw(t, "megaBase") + m
+	c.K = k + rapid.SampledFrom([]int{0, 0, 0, -1, 1}).Draw(t, "megaKOff")
+	if rapid.IntRange(0, 7).Draw(t, "megaLeft") == 0 {
+		c.K = -c.K
+	}
+	return c
+}
+
+// megaEvery: one case in megaEvery of the rand leg is a mega Rotate (each
+// costs as much as some hundred ordinary cases).
+var megaEvery = 4000
+
 func genUtilCase(t *rapid.T) UtilCase {
+	if vk.Rare(t, "mega", megaEvery) {
+		return genMegaRotate(t)
+	}
 	c := UtilCase{Fn: rapid.SampledFrom([]string{
 		"Partition", "Partition", "Rotate", "Rotate", "Rotate", "Chunks", "Chunks", "Batches", "Batches",
 		"Head", "Tail", "Stripe", "At", "PtrAt"}).Draw(t, "fn")}
@@ -1156,6 +1359,15 @@ func genUtilCase(t *rapid.T) UtilCase {
 		} else {
 			c.K = around(-n-2, n+2, -n, 0, n)
 		}
+		if rapid.IntRange(0, 3).Draw(t, "before") == 0 {
+			// directly after a Rotate of another slice by the same k: as long, a
+			// divisor or a multiple of the length, or any length
+			bn := rapid.SampledFrom([]int{c.N, c.N / 2, 2 * c.N, c.N + 1, rapid.IntRange(0, maxN).Draw(t, "beforeAnyN")}).Draw(t, "beforeN")
+			c.Before = &UtilCase{Fn: "Rotate", N: bn, K: c.K, Elem: c.Elem}
+			if rapid.IntRange(0, 3).Draw(t, "beforeOtherElem") == 0 {
+				c.Before.Elem = ""
+			}
+		}
 	case "Chunks", "Batches":
 		c.K = around(-1, n+3, 0, n, n/2, n/3)
 	case "Head", "Tail":
@@ -1175,6 +1387,8 @@ func genUtilCase(t *rapid.T) UtilCase {
 
 func TestC17Rand(t *testing.T) {
 	h := vk.Start(t, "C17", "rand")
+	megaEvery = h.Pick(4000, 20000)
+	h.Note("about one case in %d is a Rotate of an int slice of 2^20-1 .. 2^22+135 elements, three in four of them directly after a Rotate of a small slice by the same k", megaEvery)
 	vk.Rapid(h, t, genUtilCase, runC17)
 }
 
